@@ -84,11 +84,11 @@ type FilterStage struct {
 
 // Stream is a stream object. Raw is the unencoded data.
 type Stream struct {
-	D       Dict
-	Raw     []byte
-	Filters []FilterStage
-	LenMode string // direct | indirect  (indirect: /Length is Ref{LenKey})
-	LenKey  string
+	D            Dict
+	Raw          []byte
+	Filters      []FilterStage
+	LenMode      string // direct | indirect  (indirect: /Length is Ref{LenKey})
+	LenKey       string
 	ParmsAsArray bool // single filter written as 1-element arrays
 }
 
@@ -104,14 +104,14 @@ type Field struct {
 
 // Enc serialises objects into a growing buffer.
 type Enc struct {
-	Buf     bytes.Buffer
-	EOL     string
-	Tight   bool // omit optional white space around delimiters
-	R       *rand.Rand
-	Resolve func(key string) (num, gen int)
-	Fields  []Field
-	curObj  int
-	needSep bool // previous token was a regular token (needs white space before another regular token)
+	Buf      bytes.Buffer
+	EOL      string
+	Tight    bool // omit optional white space around delimiters
+	R        *rand.Rand
+	Resolve  func(key string) (num, gen int)
+	Fields   []Field
+	curObj   int
+	needSep  bool // previous token was a regular token (needs white space before another regular token)
 	NoFields bool
 }
 
